@@ -56,6 +56,8 @@ type worker struct {
 	httpSt      *httpState
 	wsSt        *wsState
 	upEngines   map[bool]*upEngine
+
+	faultStopped bool
 }
 
 // sigOf builds the signature of one ownership report.
@@ -216,9 +218,13 @@ func main() {
 	}
 
 	only := os.Getenv("C11_WORKLOAD") // debugging: restrict to one workload
-	nResp := r.N(2500, 150000)
-	nHTTP := r.N(5000, 400000)
-	nWS := r.N(3000, 200000)
+	nResp := r.N(2500, 300000)
+	nHTTP := r.N(5000, 1000000)
+	nWS := r.N(3000, 500000)
+	if *fault {
+		// every allocation is a mapping and every case is recorded first: an eighth of the cases
+		nResp, nHTTP, nWS = nResp/8, nHTTP/8, nWS/8
+	}
 	idx, done := 0, 0
 	step := func(workload string, i int, gen func() *caseT) {
 		idx++
@@ -234,6 +240,19 @@ func main() {
 			r.Sample(*c)
 		}
 		done++
+		if *fault && done%50 == 0 && !w.faultStopped {
+			// every region is a mapping and the kernel limits the number of
+			// mappings per process (vm.max_map_count, 65530 by default): the
+			// count is measured, and the shard stops long before the limit
+			if n := mappings(); n > 30000 || w.ga.Stats().FaultMmapFailures > 0 {
+				w.faultStopped = true
+				r.Inconclusive(fmt.Sprintf("fault mode: the process holds %d memory mappings (leaked regions stay mapped), the remaining cases of this shard were not run", n))
+			}
+			r.Max("fault_mode_max_memory_mappings_seen", int64(mappings()))
+		}
+		if w.faultStopped {
+			return
+		}
 		run(c)
 	}
 	for i := 0; i < nResp; i++ {
@@ -261,6 +280,15 @@ func main() {
 		}
 	}
 	w.stats()
+}
+
+// mappings counts the lines of /proc/self/maps.
+func mappings() int {
+	b, err := os.ReadFile("/proc/self/maps")
+	if err != nil {
+		return 0
+	}
+	return strings.Count(string(b), "\n")
 }
 
 func caseBytes(c *caseT) int {
